@@ -185,6 +185,37 @@ func (e *Engine) registerTypes() {
 	}
 }
 
+// ifaceContractsFor: the interface-method contracts a repo method must refine.
+func (e *Engine) ifaceContractsFor(fn *ssa.Function) []*Contract {
+	if fn.Signature.Recv() == nil || len(fn.Params) == 0 {
+		return nil
+	}
+	rt := fn.Params[0].Type()
+	var out []*Contract
+	var keys []string
+	for k := range e.byKey {
+		if strings.HasPrefix(k, "iface:") && strings.HasSuffix(k, "."+fn.Name()) {
+			keys = append(keys, k)
+		}
+	}
+	sort.Strings(keys)
+	for _, k := range keys {
+		tn := strings.TrimSuffix(k[6:], "."+fn.Name())
+		t := e.lookupNamed(tn)
+		if t == nil {
+			continue
+		}
+		it, ok := t.Underlying().(*types.Interface)
+		if !ok || !strings.HasPrefix(tn, e.modPath) {
+			continue
+		}
+		if types.Implements(rt, it) {
+			out = append(out, e.byKey[k])
+		}
+	}
+	return out
+}
+
 // knownFor: the recorded (status known) finding for an obligation, if any.
 func (e *Engine) knownFor(fn, name string) *KnownFinding {
 	for i := range e.known {
@@ -220,6 +251,9 @@ func (e *Engine) groupHeaps(name string) []string {
 func (e *Engine) regTypeHeaps(t types.Type, depth int) {
 	if t == nil || depth > 3 {
 		return
+	}
+	if _, isTuple := t.(*types.Tuple); !isTuple {
+		e.sorts.sortOf(t)
 	}
 	switch u := t.Underlying().(type) {
 	case *types.Slice:
